@@ -389,7 +389,14 @@ def drawing_record(backend, tl, doc, opts, data, kind):
         P = parse_tex(doc)
 
         def hx(h):
-            return [int(h[0:2], 16), int(h[2:4], 16), int(h[4:6], 16)] if h else [-1, -1, -1]
+            if not h:
+                return [-1, -1, -1]
+            try:
+                if len(h) != 6:
+                    raise ValueError(h)
+                return [int(h[0:2], 16), int(h[2:4], 16), int(h[4:6], 16)]
+            except ValueError:
+                return [-2, -2, -2]          # not a 6-digit code: a malformed TeX colour definition is data for the verdict
         rec["axis5"] = sval(P["axis"]["x2"] if horiz else P["axis"]["y2"])
         rec["axis_other5"] = sval(P["axis"]["y2"] if horiz else P["axis"]["x2"])
         rec["ticks"] = [{"pos5": sval(t["tr"][0] if horiz else t["tr"][1]), "other5": sval(t["tr"][1] if horiz else t["tr"][0]),
